@@ -29,6 +29,19 @@ Theorem crc64_split_step : forall bits r, Inv64 r ->
 Proof. exact fold_step64. Qed.
 Print Assumptions crc64_split_step.
 
+(* The specification itself is polynomial division over GF(2) (bit i = coefficient of x^i, + = xor,
+   * x^k = shiftl k): for ANY width/generator/init, the register R that crc_spec xors with xorout
+   has degree < w and is congruent to  init * x^n + M(x) * x^w  modulo  G = x^w + poly,  where M is
+   the message polynomial (first bit = highest coefficient) and n the number of message bits.
+   (congG G a b: a + b is a finite sum of shifted copies of G.) *)
+Theorem crc_spec_is_remainder : forall poly w init xorout data,
+  0 < w -> 0 <= poly < 2 ^ w -> 0 <= init < 2 ^ w ->
+  let bits := flat_map byte_bits data in
+  exists R, crc_spec poly w init xorout data = Z.lxor R xorout /\ 0 <= R < 2 ^ w /\
+    congG (2 ^ w + poly) R (Z.lxor (Z.shiftl init (Z.of_nat (length bits))) (Z.shiftl (msg_poly bits) w)).
+Proof. exact crc_spec_remainder_l. Qed.
+Print Assumptions crc_spec_is_remainder.
+
 (* catalogue check values: "123456789" |-> 0xD64E (CRC-16/GENIBUS), 0x62EC59E3F1A4F00A (CRC-64/WE) *)
 Example crc16_check_value : crc16 9 [49;50;51;52;53;54;55;56;57] = Ok [214; 78] /\
   crc16_genibus [49;50;51;52;53;54;55;56;57] = 54862.
